@@ -145,6 +145,12 @@ def main(argv=None):
     if args.tier == "thorough":
         os.environ["VERIF_XCHECK"] = "1"  # every distinct proved obligation is re-run on /usr/bin/z3 4.8.12 and cvc5
     tasks = prop.tasks(args.tier)
+    if not any(t["name"] == "frames.state" for t in tasks):
+        # premise of every property: the contracts quantify over the declared state of the library (contracts/state_c.py);
+        # state added by a change has no contract yet
+        from contracts import state_c
+
+        tasks = tasks + [dict(name="frames.state", build=state_c.state_task(["typemap", "mro", "core", "recode", "types", "dependent", "utils", "abc"]), mode="F")]
     results = pool.run_all([(t["name"], t["build"], t.get("mode", "U")) for t in tasks], procs=args.procs)
     by_task = {r["name"]: r for r in results}
     meta_by_task = {t["name"]: t for t in tasks}
